@@ -2,6 +2,7 @@
 cd /verif
 run() {
   d=$(mktemp -d); cp -r /repo/include $d/
+  cp evidence/C12.json $d/ev_keep.json 2>/dev/null; ls replays > $d/replays_before.txt 2>/dev/null   # a mutant run must not leave evidence / replays behind
   python3 - "$d/include/momo/$2" "$3" "$4" <<'PY'
 import sys
 p,old,new=sys.argv[1:4]
@@ -12,6 +13,7 @@ PY
   echo "=== $1"; VERIF_REPO=$d timeout 3000 ./check C12 > build/C12/mut_$1.log 2>&1; echo "exit=$?"
   grep -E "BROKEN|VIOLATION|done:" build/C12/mut_$1.log | cut -c1-230
   cp build/C12/coq_make.log build/C12/coq_make_$1.log 2>/dev/null
+  cp $d/ev_keep.json evidence/C12.json 2>/dev/null; for r in $(ls replays | grep '^C12-'); do grep -qx "$r" $d/replays_before.txt || rm -f replays/$r; done
   rm -rf $d
 }
 run J1 HashSet.h "				buckets = buckets->GetNextBuckets();
@@ -20,3 +22,4 @@ run J1 HashSet.h "				buckets = buckets->GetNextBuckets();
 				if (buckets == nullptr)
 					break;"
 run J2 details/HashBucketLimP4.h "			mPtrState[0] = static_cast<uint32_t>(intPtr) | uint32_t{state};" "			mPtrState[0] = static_cast<uint32_t>(intPtr) | (uint32_t{state} & 1);"
+python3 /verif/props/C12/regen_clean.py   # leave the clean translation in the shared coq directory
